@@ -87,7 +87,7 @@ def make_header(ilines, xlines, samples, tracecount, hw_info, bits_per_voxel, bl
 
     buffer[4:8] = int_to_bytes(len(samples))
     buffer[16:20] = np_float_to_bytes_signed(samples[0])
-    buffer[28:32] = np_float_to_bytes_signed(1000.0 * np.array(samples[1] - samples[0]))
+    buffer[28:32] = np_float_to_bytes_signed(np.round(1000.0 * np.array(samples[1] - samples[0])))
 
     if bits_per_voxel < 1:
         bpv = -int(1 / bits_per_voxel)
